@@ -1976,6 +1976,10 @@ class Obj(Container):
                 ))
             elif name == tensor_names.coulomb:  # ERI in chemist notation
                 return ("aaaa", "aabb", "bbaa", "bbbb")
+            # fock matrix: a spin free one particle operator
+            # -> only the spin conserving blocks do not vanish
+            elif name == tensor_names.fock and len(obj.idx) == 2:
+                return ("aa", "bb")
         elif isinstance(obj, KroneckerDelta):  # delta
             # spins have to be equal
             return ("aa", "bb")
